@@ -22,7 +22,9 @@ RULES = {
     "of 0..6 items with per-item delays, send delay (up to 1.5 s, i.e. also slower than the ping), ping interval and disconnect instant all "
     "drawn from a 0.25 grid (ties included), optional producer exception at step k, send() swallowing or raising after the disconnect; in a "
     "third of the cases one or two of: producer object without aclose, cleanup code that awaits, an event without fields, the server "
-    "cancelling the call instead of a disconnect; non-trivial = a disconnect or cancellation strictly inside the stream, or a producer exception",
+    "cancelling the call instead of a disconnect; in a fifth of the cases one kind of write (k-th data chunk, first / every ping chunk, closing message, "
+    "response start) takes up to 3.25 s longer; non-trivial = a disconnect or cancellation strictly inside the stream, a producer exception, or an "
+    "undisturbed event stream in which a send outlasts the ping interval",
     "asgi_grid": "exhaustive: every disconnect instant on the 0.25 grid from 0 to the end of a fixed 4-item scenario x {stream, sse} x "
     "{send swallows, send raises} x {producer fast, slow, raising}",
     "wsgi_sse": "exhaustive (shortest first): every feasible schedule over {P producer step, C consume, c consume issued while nothing "
@@ -54,6 +56,12 @@ RULES = {
     "asgi_cancel": "exhaustive grid: instead of a disconnect the server cancels the application task at every instant of the 0.25 grid "
     "(4 kinds x 5 delay patterns incl. raising producers x send delay 0/0.25/0.5 x cleanup 0/0.5 x generator / plain iterator): the call "
     "ends (CancelledError, a normal return or the producer's own exception) within the same bounds, the producer is closed once, no task is left",
+    "asgi_slow_sends": "exhaustive grid of runs WITHOUT any disconnect, cancellation or producer failure in which writes take 0.5 / 1 / 1.5 / 2.5 / 3.25 "
+    "ping intervals (ping 1.0 / 0.5): every message, or only the k-th event, the first / every keep-alive chunk, the closing message, or one event on "
+    "top of a uniformly slow client; producer ahead of / below the ping but step + write above it / tied with the ping timer / behind (pings between "
+    "events) / irregular / in step with the client; event streams (bare and in a view) and byte streams as control. The call must return normally - a "
+    "CancelledError / TimeoutError that nobody injected is not the producer's own exception -, every event arrives once and in order, the producer ran "
+    "to its end and is closed once, no task is left; non-trivial = an event stream's fault-free run in which at least one send outlasts the ping interval",
     "asgi_slow_client": "exhaustive grid: the client needs 0.75 / 1.5 / 2.5 s per event with ping intervals 0.5 / 1.0 (send slower than "
     "ping) and the producer ahead; nothing may be lost without a disconnect",
     "asgi_threads": "exhaustive grid on a thread-aware virtual-time loop (harness/x_c06.py): the producer's steps await baize's own run_in_threadpool "
@@ -76,7 +84,8 @@ ASSUMPTIONS = [
     "when the harness makes send() raise after the disconnect the call may end with that injected OSError",
     "a hang is a watchdog expiry of 5 s (normal latency < 50 ms), confirmed by a second run with a 20 s watchdog",
     "an ASGI server 'closes the response' by cancelling the application task; a call that ends with CancelledError, returns or raises "
-    "the producer's own exception within the bound has terminated",
+    "the producer's own exception within the bound has terminated; a CancelledError out of a call that the harness did not cancel is an "
+    "exception like any other that is not the producer's own (reported, not a harness event)",
     "a producer may be any (Async)Iterable: objects without close()/aclose() are judged on termination and delivery only; an event "
     "without fields is a legitimate event and does not end the stream",
     "cleanup code that awaits is run to its end by an awaited aclose(); for ASGI event streams (relay task cancelled, not awaited) the "
@@ -115,6 +124,13 @@ def oracle_asgi(case) -> Result:
     def is_blank(i):
         return (i == blank_at and "sse" in kind) or (blank_from is not None and i >= blank_from)
     cancel_at = case.get("cancel_at")  # the server cancels the application task at this instant (no disconnect)
+    # individual sends that take longer (back-pressure on one write): {"at": k | "ping" | "ping0" | "final" | "start", "delay": x}
+    # = the k-th data chunk / every keep-alive chunk / the first keep-alive chunk / the closing message / the response start
+    # needs x virtual seconds more than send_delay
+    slow = case.get("slow")
+    slow_delay = float(slow["delay"]) if slow else 0.0
+    sd_max = send_delay + slow_delay
+    info["slowed"] = []  # (what, begin, end) of the sends the extra time was applied to
     info["completed"] = False
     info["cleanup_done"] = 0
     # steps whose wait is a blocking function run through baize's run_in_threadpool (a real worker thread, released by
@@ -223,6 +239,8 @@ def oracle_asgi(case) -> Result:
 
         else:
             app = make_response()
+        if slow:
+            app = _slow_sends(app, slow, info)
         box = {}
 
         def on_send(run_, _msg):
@@ -250,13 +268,21 @@ def oracle_asgi(case) -> Result:
             loop.call_later(cancel_at, _cancel)
         try:
             run = await call
-        except asyncio.CancelledError:
+        except asyncio.CancelledError as exc:
             if info.get("cancelled_at") is None:
-                raise
-            run = box.get("run") or gw.AsgiRun()
-            run.exc = None
-            run.returned_at = loop.time()
-            info["call_cancelled"] = True
+                if not call.done():
+                    raise  # this (harness) task is being torn down, the call is still running
+                # the call ended with CancelledError although neither the client nor the server did anything to it:
+                # that is an exception of the response's own making (a timer of its own fired into the call)
+                run = box.get("run") or gw.AsgiRun()
+                run.exc = exc
+                run.returned_at = loop.time()
+                info["self_cancelled"] = True
+            else:
+                run = box.get("run") or gw.AsgiRun()
+                run.exc = None
+                run.returned_at = loop.time()
+                info["call_cancelled"] = True
         for _ in range(10):
             await asyncio.sleep(0)
         if cleanup and "sse" in kind:
@@ -292,7 +318,8 @@ def oracle_asgi(case) -> Result:
         if isinstance(run.exc, OSError) and case.get("send_raises") and run.disconnected:
             allowed = True
         if not allowed:
-            r.fail(f"C06:asgi:{kind}:raised:{type(run.exc).__name__}", f"{ctx}: call raised {run.exc!r}")
+            extra = " although nobody cancelled it and the client was still connected" if info.get("self_cancelled") and not run.disconnected else ""
+            r.fail(f"C06:asgi:{kind}:raised:{type(run.exc).__name__}", f"{ctx}: call raised {run.exc!r}{extra}; {len(run.chunks)} chunks delivered, {len(info['yielded'])} items yielded")
     elif raise_at is not None and raise_at <= n and (D is None or D > sum(delays[: raise_at + 1]) + (raise_at + 2) * send_delay + EPS) and False:
         pass
     # protocol prefix
@@ -308,7 +335,7 @@ def oracle_asgi(case) -> Result:
             # after the disconnect: the send in flight, at most one wait of one ping interval, the send of
             # what that wait produced and the final body event (send time is the server's, not the app's);
             # a cancelled call additionally runs the producer's cleanup code on its way out
-            bound = T + ping + 3 * send_delay + (cleanup if C is not None else 0.0)
+            bound = T + ping + 3 * sd_max + (cleanup if C is not None else 0.0)
             if R > bound + EPS:
                 r.fail(f"C06:asgi:{kind}:late-return", f"{ctx}: {what} at {T}, call returned at {R} > T + ping + 3*send_delay (+ cleanup) = {bound}")
         else:
@@ -316,7 +343,7 @@ def oracle_asgi(case) -> Result:
             if len(after) > 1:
                 r.fail(f"C06:asgi:{kind}:steps-after-disconnect", f"{ctx}: {len(after)} producer steps began after the call was {what} at {T}: {info['steps'][:12]!r}")
             ends = [s[1] for s in info["steps"] if s[1] is not None] + info["natural_ends"]
-            bound = max([T] + ends) + 2 * send_delay + cleanup
+            bound = max([T] + ends) + 2 * sd_max + cleanup
             if R > bound + EPS:
                 r.fail(f"C06:asgi:{kind}:late-return", f"{ctx}: {what} at {T}, call returned at {R}, bound {bound}; steps {info['steps'][:12]!r}")
     if case.get("endless") and T is not None and info["completed"]:
@@ -370,10 +397,49 @@ def oracle_asgi(case) -> Result:
     return r
 
 
+def _slow_sends(app, slow, info):
+    """The same application behind a client that accepts some messages slowly: the selected sends take slow["delay"]
+    virtual seconds longer (see oracle_asgi for the selectors)."""
+    at, extra = slow["at"], float(slow["delay"])
+
+    async def wrapped(scope, receive, send):
+        seen = {"data": 0, "ping": 0}
+
+        async def slow_send(message):
+            what = None
+            if message.get("type") == "http.response.start":
+                what = "start"
+            elif message.get("type") == "http.response.body":
+                body = message.get("body", b"")
+                if not message.get("more_body", False):
+                    what = "final"
+                elif body.startswith(b": ping"):
+                    what = "ping0" if seen["ping"] == 0 else "ping"
+                    seen["ping"] += 1
+                else:
+                    what = seen["data"]
+                    seen["data"] += 1
+            if what == at or (at == "ping" and what == "ping0"):
+                loop = asyncio.get_running_loop()
+                span = [what, loop.time(), None]
+                info["slowed"].append(span)
+                await asyncio.sleep(extra)
+                await send(message)
+                span[2] = loop.time()
+            else:
+                await send(message)
+
+        await app(scope, receive, slow_send)
+
+    return wrapped
+
+
 def _classify_asgi(r, case, run, info=None):
     D = case.get("disconnect_at")
     total = sum(case["delays"]) + 0.0
-    inside = D is not None and 0 < D < total + case.get("send_delay", 0) * (case["items"] + 1) + EPS
+    slow = case.get("slow")
+    slow_delay = float(slow["delay"]) if slow else 0.0
+    inside = D is not None and 0 < D < total + case.get("send_delay", 0) * (case["items"] + 1) + slow_delay + EPS
     r.nontrivial = bool(inside or case.get("raise_at") is not None)
     r.label(f"kind={case['kind']}")
     if D is None:
@@ -390,7 +456,7 @@ def _classify_asgi(r, case, run, info=None):
         r.label("tie-with-producer-step")
     if case.get("cancel_at") is not None:
         r.label("server-cancels-call")
-        if 0 < case["cancel_at"] < total + case.get("send_delay", 0) * (case["items"] + 1) + EPS:
+        if 0 < case["cancel_at"] < total + case.get("send_delay", 0) * (case["items"] + 1) + slow_delay + EPS:
             r.nontrivial = True
     if case.get("source", "gen") != "gen":
         r.label(f"source={case['source']}")
@@ -402,6 +468,23 @@ def _classify_asgi(r, case, run, info=None):
         r.label("endless-producer")
     if case.get("send_delay", 0) > case.get("ping", 1.0):
         r.label("client-slower-than-ping")
+    if slow:
+        r.label("one-kind-of-send-slow", f"slow-send-at={slow['at'] if isinstance(slow['at'], str) else 'data-chunk'}")
+    # sends that took longer than the ping interval: every one (send_delay) or the selected ones that did take place
+    spans = [sp for sp in (info or {}).get("slowed", []) if sp[2] is not None]
+    outlasts = case.get("send_delay", 0) > case.get("ping", 1.0) + EPS or any(sp[2] - sp[1] > case.get("ping", 1.0) + EPS for sp in spans)
+    fault_free = D is None and case.get("cancel_at") is None and case.get("raise_at") is None and case.get("stuck") is None
+    if outlasts:
+        r.label("send-outlasts-ping-interval")
+        if fault_free:
+            r.label("fault-free-send-outlasts-ping-interval" if "sse" in case["kind"] else "fault-free-slow-send-byte-stream-control")
+            if "sse" in case["kind"] and "threads" not in case:
+                # a run nobody disturbs in which the keep-alive timer expires while an event is being written
+                r.nontrivial = True
+        if any(sp[0] in ("ping", "ping0") and sp[2] - sp[1] > case.get("ping", 1.0) + EPS for sp in spans):
+            r.label("slow-send-of-a-ping-chunk")
+    if slow and not (info or {}).get("slowed"):
+        r.label("selected-send-did-not-occur")
     if "threads" in case or case.get("stuck") is not None:
         # non-trivial here: the client left / the server cancelled while a worker thread was inside the blocking function
         gates = (info or {}).get("gates", [])
@@ -968,6 +1051,7 @@ SUBS = {
     "asgi_cancel": oracle_asgi,
     "asgi_slow_client": oracle_asgi,
     "asgi_endless": oracle_asgi,
+    "asgi_slow_sends": oracle_asgi,
     "asgi_threads": oracle_asgi,
     "asgi_threads_h": oracle_asgi,
     "wsgi_sse": oracle_wsgi_sse,
@@ -1020,6 +1104,9 @@ def asgi_case(draw):
     if extra in (1, 3, 6, 7) and D is not None:
         case["cancel_at"], case["disconnect_at"] = D, None
         case["send_raises"] = False
+    if draw(st.integers(0, 4)) == 0:
+        # back-pressure on individual writes: one data chunk, the keep-alive chunks or the closing message take longer
+        case["slow"] = {"at": draw(st.sampled_from([0, 1, 2, 4, "ping0", "ping", "final", "start"])), "delay": draw(st.sampled_from([0.25, 0.5, 0.75, 1.25, 1.5, 2.5, 3.25]))}
     return case
 
 
@@ -1159,6 +1246,37 @@ def asgi_slow_client_cases():
                 for delays in ([0, 0, 0, 0, 0], [0.25, 0.25, 0.25, 0.25, 0.25], [0, 1.5, 0, 0, 2.0]):
                     for D in (None, 1.0, 2.25, 4.0, 7.0):
                         yield _base(kind, delays, None, send_delay=send_delay, ping=ping, disconnect_at=D)
+
+
+def asgi_slow_send_cases():
+    """Nobody disconnects, nobody cancels, the producer does not fail: only the client is slow - for every message, or for
+    one write only (back-pressure on the k-th event, on a keep-alive chunk, on the closing message) - and that write
+    takes 0.5 .. 3.25 ping intervals.  The producer is ahead of the client, in step with it, behind it (pings in between)
+    or irregular.  Byte streams (no ping timer) are the control."""
+    factors = (0.5, 1.0, 1.5, 2.5, 3.25)
+    for kind in ("sse", "sse-view", "stream"):
+        for ping in (1.0, 0.5):
+            # producer step in units of the ping interval: ahead / below the ping but step + write above it / tie with the
+            # ping timer / behind (keep-alive chunks between the events) / irregular
+            for steps in ([0] * 5, [0.75] * 5, [1.0] * 5, [2.25] * 5, [0, 1.5, 0, 0.5, 2.5]):
+                delays = [x * ping for x in steps]
+                for f in factors:
+                    x = f * ping
+                    yield _base(kind, delays, None, ping=ping, send_delay=x)
+                    for at in (0, 1, 3, "ping0", "ping", "final"):
+                        if "sse" not in kind and at in ("ping0", "ping"):
+                            continue
+                        if kind == "sse-view" and at in (1, "final"):
+                            continue
+                        yield _base(kind, delays, None, ping=ping, slow={"at": at, "delay": x})
+                    # a client that is a little slow all the time and very slow once
+                    yield _base(kind, delays, None, ping=ping, send_delay=0.25 * ping, slow={"at": 2, "delay": x})
+    # in step: the producer's step is the client's write time
+    for kind in ("sse", "stream"):
+        for ping in (1.0, 0.5):
+            for f in factors:
+                yield _base(kind, [f * ping] * 5, None, ping=ping, send_delay=f * ping)
+                yield _base(kind, [f * ping] * 7, None, items=6, ping=ping, slow={"at": 4, "delay": f * ping})
 
 
 ENDLESS_CUTOFF = 3000
@@ -1308,7 +1426,7 @@ def run(rec, only=None):
     core.drive_cases(rec, "asgi_grid", grid, oracle_asgi)
     rec.exhaustive["asgi_grid"] = True
     for sub, cases in (("asgi_requests", asgi_request_cases()), ("asgi_blanks", asgi_blank_cases()), ("asgi_sources", asgi_sources_cases()), ("asgi_cleanup", asgi_cleanup_cases(quick)), ("asgi_cancel", asgi_cancel_cases(quick)),
-                       ("asgi_slow_client", asgi_slow_client_cases()), ("asgi_endless", asgi_endless_cases()), ("asgi_threads", asgi_thread_cases(quick))):
+                       ("asgi_slow_client", asgi_slow_client_cases()), ("asgi_slow_sends", asgi_slow_send_cases()), ("asgi_endless", asgi_endless_cases()), ("asgi_threads", asgi_thread_cases(quick))):
         core.drive_cases(rec, sub, cases, oracle_asgi)
         rec.exhaustive[sub] = True
     core.drive_hypothesis(rec, "asgi", asgi_case(), oracle_asgi, 1500 if quick else 500000)
